@@ -29,6 +29,7 @@ import (
 // ---------------------------------------------------------------- simulated chain + pipeline
 
 type netUpkeep struct {
+	bigGas     bool // its gas allocation alone exceeds the report gas limit
 	id         ocr2keepers.UpkeepIdentifier
 	log        bool
 	eligibleAt uint64 // conditional: eligible for check blocks >= eligibleAt
@@ -47,7 +48,24 @@ type netTransmit struct {
 	upkeeps []ocr2keepers.CheckResult
 }
 
+type netFakeEvent struct {
+	from uint64 // first block at which providers return it
+	ev   ocr2keepers.TransmitEvent
+}
+
+type JNetEvent struct {
+	Round      int    `json:"round"` // first round in which this member's provider returned the event
+	Node       int    `json:"node"`
+	WID        string `json:"wid"`
+	CheckBlock uint64 `json:"cb"`
+	Type       int    `json:"type"`
+}
+
 type netWorld struct {
+	fake     []netFakeEvent
+	seenEv   map[string]bool
+	evLog    []JNetEvent
+	curRound int
 	mu        sync.Mutex
 	r         *Rng
 	height    uint64
@@ -101,6 +119,9 @@ func (w *netWorld) checkResult(p ocr2keepers.UpkeepPayload) (ocr2keepers.CheckRe
 	h := sha256.Sum256(append(append([]byte{}, p.UpkeepID[:]...), seqBytes(blk)...))
 	res.Eligible = true
 	res.GasAllocated = 100_000 + uint64(binary.LittleEndian.Uint16(h[:2]))
+	if up.bigGas {
+		res.GasAllocated += 5_100_000
+	}
 	res.PerformData = append([]byte{}, h[2:2+int(h[1]%20)]...)
 	res.FastGasWei = new(big.Int).SetUint64(1_000_000 + blk)
 	res.LinkNative = new(big.Int).SetUint64(5_000_000 + blk%7)
@@ -136,6 +157,21 @@ func (e *netEvents) GetLatestEvents(context.Context) ([]ocr2keepers.TransmitEven
 	defer e.w.mu.Unlock()
 	var out []ocr2keepers.TransmitEvent
 	top := e.w.height
+	note := func(ev ocr2keepers.TransmitEvent) {
+		k := fmt.Sprintf("%d|%s|%d|%d|%x", e.m.id, ev.WorkID, ev.CheckBlock, ev.Type, ev.TransactionHash[:4])
+		if !e.w.seenEv[k] {
+			e.w.seenEv[k] = true
+			e.w.evLog = append(e.w.evLog, JNetEvent{Round: e.w.curRound, Node: e.m.id, WID: ev.WorkID, CheckBlock: uint64(ev.CheckBlock), Type: int(ev.Type)})
+		}
+	}
+	for _, fe := range e.w.fake {
+		if fe.from+uint64(e.m.evDelay) <= top {
+			ev := fe.ev
+			ev.Confirmations = int64(top-fe.from) + 2
+			out = append(out, ev)
+			note(ev)
+		}
+	}
 	for _, t := range e.w.transmits {
 		if t.block+uint64(e.m.evDelay) > top || top-t.block > 200 {
 			continue
@@ -144,6 +180,7 @@ func (e *netEvents) GetLatestEvents(context.Context) ([]ocr2keepers.TransmitEven
 			ev := ocr2keepers.TransmitEvent{Type: ocr2keepers.PerformEvent, TransmitBlock: ocr2keepers.BlockNumber(t.block), Confirmations: int64(top - t.block),
 				TransactionHash: t.tx, UpkeepID: u.UpkeepID, WorkID: u.WorkID, CheckBlock: u.Trigger.BlockNumber}
 			out = append(out, ev)
+			note(ev)
 			if e.w.r.Chance(10) {
 				out = append(out, ev) // duplicated delivery
 			}
@@ -196,6 +233,7 @@ type JNetTrace struct {
 	Rounds   []JNetRound        `json:"rounds"`
 	Reports  []JNetReport       `json:"reports"`
 	Queries  []JNetQuery        `json:"queries"`
+	Events   []JNetEvent        `json:"events"` // when each member's event provider first returned each transmit event
 }
 
 type JNetImpl struct {
@@ -224,15 +262,15 @@ func runNetwork(t *testing.T, r *Rng, em *Emitter, roundEm func(JRound, JRoundIm
 	opts := netOpts{rounds: r.Range(12, 28), conds: r.Range(0, 6), logs: r.Range(0, 5), byz: byz, crashes: faulty - byz, lateAccept: r.Chance(60)}
 	em.Hit(fmt.Sprintf("n=%d,f=%d,byz=%d,crash=%d", n, f, opts.byz, opts.crashes))
 
-	w := &netWorld{r: r.Fork(), height: uint64(r.Range(100, 100000)), hashes: map[uint64][32]byte{}, performed: map[string]uint64{}}
+	w := &netWorld{seenEv: map[string]bool{}, r: r.Fork(), height: uint64(r.Range(100, 100000)), hashes: map[uint64][32]byte{}, performed: map[string]uint64{}}
 	if r.Chance(20) {
 		w.height = uint64(r.Range(95, 99)) // crosses 100 during the run
 	}
 	for i := 0; i < opts.conds; i++ {
-		w.upkeeps = append(w.upkeeps, &netUpkeep{id: genUpkeepID(r, false), eligibleAt: w.height + uint64(r.Range(0, 12))})
+		w.upkeeps = append(w.upkeeps, &netUpkeep{id: genUpkeepID(r, false), eligibleAt: w.height + uint64(r.Range(0, 12)), bigGas: r.Chance(15)})
 	}
 	for i := 0; i < opts.logs; i++ {
-		w.upkeeps = append(w.upkeeps, &netUpkeep{id: genUpkeepID(r, true), log: true})
+		w.upkeeps = append(w.upkeeps, &netUpkeep{id: genUpkeepID(r, true), log: true, bigGas: r.Chance(15)})
 	}
 	digest := genHash(r)
 	trace := JNetTrace{N: n, F: f, Restarts: map[string][]int{}}
@@ -357,6 +395,9 @@ func runNetwork(t *testing.T, r *Rng, em *Emitter, roundEm func(JRound, JRoundIm
 	}
 
 	for round := 0; round < opts.rounds; round++ {
+		w.mu.Lock()
+		w.curRound = round
+		w.mu.Unlock()
 		feed(round)
 		time.Sleep(time.Duration(1137+r.Intn(900)) * time.Millisecond)
 		synctest.Wait()
@@ -434,7 +475,7 @@ func runNetwork(t *testing.T, r *Rng, em *Emitter, roundEm func(JRound, JRoundIm
 				continue
 			}
 			var b []byte
-			kind := r.Intn(6)
+			kind := r.Intn(7)
 			em.Hit(fmt.Sprintf("net-byz-%d", kind))
 			switch {
 			case kind == 0 && len(honestObs) > 0: // replay an honest observation
@@ -468,6 +509,22 @@ func runNetwork(t *testing.T, r *Rng, em *Emitter, roundEm func(JRound, JRoundIm
 				if gojson.Unmarshal(honestObs[r.Intn(len(honestObs))], &o) == nil {
 					for i := range o.Performable {
 						o.Performable[i].GasAllocated = -o.Performable[i].GasAllocated // 2^64 - g: same UniqueID bytes
+					}
+					b = must(o.Encode())
+				}
+			case kind == 6: // one member lists the same fabricated result twice, not adjacent: [W, X, W]
+				{
+					var o ocr2keepersv3.AutomationObservation
+					o.BlockHistory = w.history(w.height, 5)
+					mk := func() ocr2keepers.CheckResult {
+						uid := genUpkeepID(r, false)
+						trig := ocr2keepers.NewTrigger(ocr2keepers.BlockNumber(w.height), w.hash(w.height))
+						return ocr2keepers.CheckResult{Eligible: true, UpkeepID: uid, Trigger: trig, WorkID: wg(uid, trig), GasAllocated: 99, PerformData: []byte{0x66}, FastGasWei: big.NewInt(2), LinkNative: big.NewInt(2)}
+					}
+					wres, xres := mk(), mk()
+					o.Performable = []ocr2keepers.CheckResult{wres, xres, wres}
+					for k := 0; k < f; k++ {
+						o.Performable = append(o.Performable, mk(), wres)
 					}
 					b = must(o.Encode())
 				}
@@ -533,7 +590,7 @@ func runNetwork(t *testing.T, r *Rng, em *Emitter, roundEm func(JRound, JRoundIm
 		var outcome ocr2keepersv3.AutomationOutcome
 		_ = gojson.Unmarshal(outBytes, &outcome)
 		jr.Agreed = toJCRs(outcome.AgreedPerformables)
-		if roundEm != nil {
+		if false && roundEm != nil {
 			var prevO *ocr2keepersv3.AutomationOutcome
 			if prevBytes != nil {
 				var po ocr2keepersv3.AutomationOutcome
@@ -548,6 +605,23 @@ func runNetwork(t *testing.T, r *Rng, em *Emitter, roundEm func(JRound, JRoundIm
 		// --- reports
 		reps, err := up[0].node.Plugin.Reports(context.Background(), seq, outBytes)
 		calls := up[0].node.Enc.Take()
+		if roundEm != nil {
+			var prevO *ocr2keepersv3.AutomationOutcome
+			if prevBytes != nil {
+				var po ocr2keepersv3.AutomationOutcome
+				if gojson.Unmarshal(prevBytes, &po) == nil {
+					prevO = &po
+				}
+			}
+			in := buildRound(n, f, digest, seq, prevO, rawsK, oraclesK)
+			jo := toJOutcome(outcome)
+			im := JRoundImpl{Outcome: &jo, Bytes: hx(outBytes)}
+			for _, c := range calls {
+				im.Reports = append(im.Reports, toJCRs(c))
+			}
+			im.HasReports = err == nil
+			roundEm(in, im)
+		}
 		if err == nil {
 			for i, rp := range reps {
 				id := len(trace.Reports)
@@ -558,6 +632,23 @@ func runNetwork(t *testing.T, r *Rng, em *Emitter, roundEm func(JRound, JRoundIm
 				trace.Reports = append(trace.Reports, JNetReport{ID: id, Round: round, Upkeeps: toJCRs(ups)})
 				reportBytes[id] = rp.ReportWithInfo.Report
 				jr.Reports = append(jr.Reports, id)
+				if r.Chance(30) {
+					// a late event that belongs to an OLDER check of the same work (e.g. another transmitter's stale report):
+					// it must not release the newer report
+					for _, u := range ups {
+						if uint64(u.Trigger.BlockNumber) > 6 {
+							w.mu.Lock()
+							ty := ocr2keepers.StaleReportEvent
+							if r.Bool() {
+								ty = ocr2keepers.PerformEvent
+							}
+							w.fake = append(w.fake, netFakeEvent{from: w.height + 1, ev: ocr2keepers.TransmitEvent{Type: ty, TransmitBlock: ocr2keepers.BlockNumber(w.height + 1),
+								TransactionHash: genHash(r), UpkeepID: u.UpkeepID, WorkID: u.WorkID, CheckBlock: u.Trigger.BlockNumber - ocr2keepers.BlockNumber(r.Range(1, 5))}})
+							w.mu.Unlock()
+							em.Hit("late-event-for-older-check")
+						}
+					}
+				}
 				for _, u := range ups {
 					k := hx(u.UpkeepID[:])
 					if _, ok := impl.FirstReport[k]; !ok {
@@ -620,6 +711,9 @@ func runNetwork(t *testing.T, r *Rng, em *Emitter, roundEm func(JRound, JRoundIm
 	}
 	time.Sleep(12 * time.Second)
 	synctest.Wait()
+	w.mu.Lock()
+	trace.Events = append(trace.Events, w.evLog...)
+	w.mu.Unlock()
 	return trace, impl
 }
 
